@@ -106,6 +106,25 @@ def run(ctx):
         raise vlib.Inconclusive("handlers still running after the script ended: %s" % ctx.notes[-1])
     tc.mech_pass(ctx, scases, spick, label="c06-listener-closes-during-absorb")
     ctx.cov["distinct_nontrivial"] += len(spick)
+    # 2f. many probes in the drain at the same moment (320 quick / 600 thorough, each >= 50 bytes or a replay, none half-closes):
+    #     every one of them stays open and silent until the timeout, however many there are
+    nmany = 320 if q else 600
+    mb = [b for b in tc.gen(ctx, "Gen_TcpConn_C06NoFin.cfg", 2500 if q else 6000, seed=ctx.seed + 6)
+          if len(b["sc"]) == 1 and b["sc"][0]["hs"] != "valid" and any(e["a"] == "Auth" for e in b["tr"])]
+    if len(mb) < 40:
+        raise vlib.Inconclusive("too few absorbed-probe behaviours for the concurrent family (%d)" % len(mb))
+    many = [mb[i % len(mb)] for i in range(nmany)]
+    merged = tc.merge_behaviours(many)
+    mcases, _, _, mhung = tc.run_family(ctx, "C06_", [merged], label="c06-many-concurrent-probes-%d" % nmany, timeout_ms=3000, par=1,
+                                        extra=["-own-waits", "-hold-ms", "4000", "-hang-ms", "12000", "-debug-every", "0"], confirm=False)
+    if mhung:
+        raise vlib.Inconclusive("concurrent probes: handlers still running: %s" % ctx.notes[-1])
+    late = [c for c in mcases if c["acceptAt"] >= 0 and c["preDoneAt"] > c["acceptAt"] + 2500]
+    ctx.cov["concurrent_probes"] = {"connections": len(mcases), "closed_at_timeout": sum(1 for c in mcases if c["drain"] == "timeout"),
+                                    "span_of_accepts_ms": max(c["acceptAt"] for c in mcases) - min(c["acceptAt"] for c in mcases if c["acceptAt"] >= 0)}
+    if ctx.cov["concurrent_probes"]["span_of_accepts_ms"] > 2000 and not ctx.violations:
+        raise vlib.Inconclusive("the %d probes could not be opened within the handshake timeout (%s)" % (nmany, ctx.cov["concurrent_probes"]))
+    ctx.cov["distinct_nontrivial"] += 1
     ctx.cov["self_test_rejected"] = tc.self_test(ctx, cases, tc.REAL_SLACK)
 
     # 3. virtual time
